@@ -222,6 +222,16 @@ def main():
             reps.append((crashed, ec, o))
     a, _, _ = vlib.run_lines(h, ["rep %d %d %s" % (c, e, vlib.hx(o)) for c, e, o in reps])
     b, _, _ = vlib.run_lines(drv, ["rep %d %d %s" % (c, e, vlib.hx(o)) for c, e, o in reps])
+    # report() as generated from today's qmail-rspawn.c by tools/c2gallina.py, on the same arguments (validation of the translator;
+    # Tie/Gen_report.v proves the generated function equal to rspawn_report)
+    try:
+        g, _, _ = vlib.run_lines(vlib.build_driver("GEN"), ["rep %d %d %s" % (c, e, vlib.hx(o)) for c, e, o in reps])
+    except RuntimeError as ex:
+        g = None; mism.append(dict(kind="translator", what="the generated functions do not build", log=str(ex)[-600:]))
+    for k, ((c, e, o), x) in enumerate(zip(reps, a)):
+        if g is not None and g[k] != x:
+            mism.append(dict(kind="translator", what="generated report() and C report() disagree", crashed=c, exitcode=e, output=o.decode("latin1"), c=x[:200], generated=g[k][:200])); break
+        ck.count("rspawn_report_generated")
     for (c, e, o), x, y in zip(reps, a, b):
         ck.evaluated(); ck.count("rspawn_report")
         ck.nontrivial(("rs", c, e, o))
